@@ -140,6 +140,32 @@ PROPS['C09']['assumptions'] = [
     'meteorological files carry the time of day as HHMM',
     'same runs and schedule space as C08; the simulator decides which image is judged (the one at acknowledgement), the differential oracle decides the rest']
 
+PROPS['C19'] = {
+    'harness': 'ack_icartt', 'level': 'exploration',
+    'runs': {'quick': 2500, 'thorough': 80000},
+    'cpu_s': 300, 'wall_s': 900,
+    'rule': ('one run = 1-3 write cycles: an in-memory 1-D time series (1-20 '
+             'records, 1-4 dependent variables, values 1e-30..1e30 incl. '
+             'negative and zero, missing codes of up to 7 significant digits, '
+             '0-5 header comment attributes, with/without a revision date) is '
+             'written by ncf2ffi1001; the durable image at the instant the '
+             'writer returns (open text handle, last newline still buffered) '
+             'is copied; handle schedule retain/close/drop/drop+collect; ack, '
+             'post-schedule and final images are decoded by the reference '
+             'FFI-1001 decoder (declared vs actual header/variable counts) and '
+             'reopened by the library (explicit and auto-detected, under '
+             '.ffi1001/.ict/.txt/no suffix); a second write/read cycle follows '
+             'a clock jump across midnight/new year. distinct = abstracted '
+             'trace; non-trivial = a handle step lies between write and a '
+             'judged image'),
+    'components': {'real': REAL, 'stub': ['crash = byte copy at acknowledgement', 'wall clock',
+                                          'GC trigger', 'peer: reference FFI-1001 decoder']},
+    'assumptions': [
+        'variable names are [A-Za-z0-9_] tokens; missing codes have at most 7 significant digits (the format stores %.6e)',
+        'a value equal to the missing code is a missing value in this format',
+        'input variety is workload inside a fixed envelope'],
+}
+
 MANIFEST_TEXT = {
     'C05': {
         'text': ('Seeded search over schedules: thousands of simulated runs, '
@@ -259,6 +285,23 @@ MANIFEST_TEXT['C09'] = {
     'technique': 'deterministic simulation: crash-at-acknowledgement images judged by an independent reference codec (stub peer), both directions',
 }
 
+MANIFEST_TEXT['C19'] = {
+    'text': ('Seeded search over ICARTT write/read cycles judged at the '
+             'durable image the writer leaves when it returns (an open text '
+             'handle whose last newline is still in Python\'s buffer), after '
+             'each handle schedule and at process end, reopened explicitly and '
+             'by auto-detection under several suffixes, decoded independently '
+             'for the declared header/variable counts, with a second cycle '
+             'after clock jumps across midnight/new year (default revision '
+             'date). Inputs are workload inside a fixed envelope.'),
+    'design_ref': 'DESIGN.md section 5 (C19)',
+    'note': ('Trusted: reference FFI-1001 decoder; byte copy = crash image. '
+             'The writer counts the column-header line in NLHEAD but not in '
+             'the normal-comment count; the property only states NLHEAD and '
+             'the variable count, so that is accepted.'),
+    'technique': 'deterministic simulation: crash-at-acknowledgement image of a buffered text handle + handle schedule + simulated clock across two write/read cycles',
+}
+
 NOT_APPLICABLE = {
     'C01': 'pure function of (file, operation sequence): no clock, handle, finaliser, registry or disk state enters any conjunct, so there is no schedule or fault to sample',
     'C02': 'hyperslab selection is a pure function of arrays and selectors; nothing for a simulator to schedule or fault',
@@ -277,5 +320,4 @@ NOT_APPLICABLE = {
 PENDING = {
     'C13': 'planned (DESIGN.md section 5, access-schedule over hidden cursors): check not registered yet',
     'C18': 'planned (DESIGN.md section 5): check not registered yet',
-    'C19': 'planned (DESIGN.md section 5): check not registered yet',
 }
